@@ -66,6 +66,13 @@ def gen_case(rng):
          "map_as_array": rng.random() < 0.3,           # some EDS files declare the mapping parameter as ARRAY (object type 8)
          "failed_first_save": rng.random() < 0.2,      # the device refused re-mapping once (transient state) before the judged save
          "frame_bit": rng.random() < 0.5}              # a compliant device reports bit 29 ("frame") for 29-bit COB-IDs
+    if rng.random() < 0.4 and c["source"] != "load_configuration":
+        # the same map object is re-configured and saved again: the prior state of the device is what the library itself left
+        c["second"] = {"cob": rng.choice([cob, rng.randint(1, 0x7FF), rng.randint(0x800, 0x1FFFFFFF)]), "enabled": rng.random() < 0.6,
+                       "rtr": rng.random() < 0.5, "trans": rng.choice([trans, 0, 1, 254, 255, rng.randint(0, 255)]),
+                       "mapping": random_mapping(rng), "inhibit": rng.choice([None, 0, 100, 65535]) if 3 in subs else None,
+                       "event": rng.choice([None, 0, 500, 65535]) if 5 in subs else None,
+                       "sync_start": rng.choice([None, 0, 7, 240]) if 6 in subs else None}
     return c
 
 
@@ -97,6 +104,39 @@ def build_od(c, with_values=False):
                 var.default = rng.choice([0, v ^ 1, None])      # the ParameterValue wins over a different default
                 var.value = v
     return d, com, mp
+
+
+def readback(ctx, c, netx, trace):
+    """Read the saved configuration into a fresh node object on another station and compare."""
+    import canopen
+    # ---- read back into a fresh node object on another station
+    try:
+        od2, _, _ = build_od(c)
+        node2 = canopen.RemoteNode(NODE, od2)
+        netx.add_node(node2)
+        node2.sdo.RESPONSE_TIMEOUT = 0.05
+        p2 = (node2.rpdo if c["kind"] == "rpdo" else node2.tpdo)[c["number"]]
+        p2.read()
+    except Exception as exc:  # noqa: BLE001
+        ctx.violation(f"readback-raised:{type(exc).__name__}", f"reading the saved configuration back raised {exc!r}", c, trace())
+        return
+    ctx.count("readbacks_compared")
+    got = {"cob": p2.cob_id, "enabled": p2.enabled, "rtr": p2.rtr_allowed, "trans": p2.trans_type,
+           "mapping": [(v.index, v.subindex, v.length) for v in p2.map]}
+    want = {"cob": c["cob"], "enabled": c["enabled"], "rtr": c["rtr"], "trans": c["trans"], "mapping": [tuple(m) for m in c["mapping"]]}
+    for k in want:
+        if got[k] != want[k]:
+            ctx.violation(f"readback-mismatch:{k}", f"read-back {k} = {got[k]!r}, configured {want[k]!r}", c, trace())
+    if c["trans"] >= 254:
+        for attr, key, s in (("inhibit_time", "inhibit", 3), ("event_timer", "event", 5), ("sync_start_value", "sync_start", 6)):
+            if s in c["subs"] and c[key] is not None and getattr(p2, attr) != c[key]:
+                ctx.violation(f"readback-mismatch:{key}", f"read-back {attr} = {getattr(p2, attr)!r}, configured {c[key]!r}", c, trace())
+    sub2 = any(cb == p2.on_message for cb in netx.subscribers.get(c["cob"], []))
+    if sub2 != c["enabled"]:
+        ctx.violation("subscription-after-read", f"fresh node: map enabled={c['enabled']} but subscribed to its COB-ID {c['cob']:#x}: {sub2} "
+                      f"(subscriber ids {sorted(hex(k) for k in netx.subscribers)})", c)
+    if len(p2.data) != (sum(m[2] for m in c["mapping"]) + 7) // 8:
+        ctx.violation("readback-data-size", f"data buffer of {len(p2.data)} bytes for {sum(m[2] for m in c['mapping'])} mapped bits", c)
 
 
 def run_case(ctx, c):
@@ -167,35 +207,37 @@ def run_case(ctx, c):
     subscribed = any(cb == pmap.on_message for cb in net.subscribers.get(c["cob"], []))
     if subscribed != c["enabled"] and c["source"] != "device":
         ctx.violation("subscription-after-save", f"map enabled={c['enabled']} but subscribed to {c['cob']:#x}: {subscribed}", c)
-    # ---- read back into a fresh node object on another station
-    try:
-        od2, _, _ = build_od(c)
-        node2 = canopen.RemoteNode(NODE, od2)
-        net2.add_node(node2)
-        node2.sdo.RESPONSE_TIMEOUT = 0.05
-        p2 = (node2.rpdo if c["kind"] == "rpdo" else node2.tpdo)[c["number"]]
-        p2.read()
-    except Exception as exc:  # noqa: BLE001
-        ctx.violation(f"readback-raised:{type(exc).__name__}", f"reading the saved configuration back raised {exc!r}", c, trace())
-        bus.close()
-        return
-    ctx.count("readbacks_compared")
-    got = {"cob": p2.cob_id, "enabled": p2.enabled, "rtr": p2.rtr_allowed, "trans": p2.trans_type,
-           "mapping": [(v.index, v.subindex, v.length) for v in p2.map]}
-    want = {"cob": c["cob"], "enabled": c["enabled"], "rtr": c["rtr"], "trans": c["trans"], "mapping": [tuple(m) for m in c["mapping"]]}
-    for k in want:
-        if got[k] != want[k]:
-            ctx.violation(f"readback-mismatch:{k}", f"read-back {k} = {got[k]!r}, configured {want[k]!r}", c, trace())
-    if c["trans"] >= 254:
-        for attr, key, s in (("inhibit_time", "inhibit", 3), ("event_timer", "event", 5), ("sync_start_value", "sync_start", 6)):
-            if s in c["subs"] and c[key] is not None and getattr(p2, attr) != c[key]:
-                ctx.violation(f"readback-mismatch:{key}", f"read-back {attr} = {getattr(p2, attr)!r}, configured {c[key]!r}", c, trace())
-    sub2 = any(cb == p2.on_message for cb in net2.subscribers.get(c["cob"], []))
-    if sub2 != c["enabled"]:
-        ctx.violation("subscription-after-read", f"fresh node: map enabled={c['enabled']} but subscribed to its COB-ID {c['cob']:#x}: {sub2} "
-                      f"(subscriber ids {sorted(hex(k) for k in net2.subscribers)})", c)
-    if len(p2.data) != (sum(m[2] for m in c["mapping"]) + 7) // 8:
-        ctx.violation("readback-data-size", f"data buffer of {len(p2.data)} bytes for {sum(m[2] for m in c['mapping'])} mapped bits", c)
+    readback(ctx, c, net2, trace)
+    second = c.get("second")
+    if second:
+        c2 = dict(c, **second)
+        c2["source"], c2["round"] = "programmatic", 2
+        c2.pop("second")
+        ctx.case(("second-save", c["kind"], c["source"], len(c["mapping"]), len(c2["mapping"]), c["enabled"], c2["enabled"], c["cob"] == c2["cob"]), nontrivial=True)
+        try:
+            pmap.clear()
+            for idx, sub, ln in c2["mapping"]:
+                pmap.add_variable(idx, sub, ln)
+            pmap.cob_id, pmap.enabled, pmap.rtr_allowed, pmap.trans_type = c2["cob"], c2["enabled"], c2["rtr"], c2["trans"]
+            pmap.inhibit_time, pmap.event_timer, pmap.sync_start_value = c2["inhibit"], c2["event"], c2["sync_start"]
+            nlog = len(dev.write_log)
+            pmap.save()
+        except Exception as exc:  # noqa: BLE001
+            ctx.violation(f"save-raised:{type(exc).__name__}:second-save", f"second save on the same map raised {type(exc).__name__}: {exc}; device log {dev.write_log[-6:]}", c2, trace())
+            bus.close()
+            return
+        ctx.count("saves_checked")
+        log2 = dev.write_log[nlog:]
+        ctx.count("device_writes_logged", len(log2))
+        check_log(ctx, c2, log2, com, mp, trace)
+        # (a left-over subscription to the first COB-ID is harmless: on_message ignores frames of other ids; not judged)
+        subscribed2 = any(cb == pmap.on_message for cb in net.subscribers.get(c2["cob"], []))
+        # (nor is a map that was enabled before and is saved disabled now required to drop its subscription: the property
+        # speaks about the fresh node object; only "enabled implies subscribed" is demanded of the live one)
+        if c2["enabled"] and not subscribed2:
+            ctx.violation("subscription-after-save", f"second save: map enabled but not subscribed to {c2['cob']:#x}", c2)
+        net3, _ = simbus.make_network(bus, "third")
+        readback(ctx, c2, net3, trace)
     if len(ctx.samples) < 4:
         ctx.sample({"case": c, "device_write_log": [(hex(i), s, hex(v) if v is not None else None, ok) for i, s, v, ok, _ in log]})
     bus.close()
